@@ -95,3 +95,34 @@ impl ThickSegment {
         scanline
     }
 }
+
+#[cfg(embedded_graphics_verif)]
+impl ThickSegment {
+    /// Verification hook: a segment between two miter joins with the given corner points
+    /// (`[first_edge_end.left, first_edge_end.right, second_edge_start.left, second_edge_start.right]`).
+    pub fn verif_from_corners(
+        start: [crate::geometry::Point; 4],
+        end: [crate::geometry::Point; 4],
+    ) -> Self {
+        use super::line_join::{EdgeCorners, JoinKind};
+
+        let join = |p: [crate::geometry::Point; 4]| LineJoin {
+            kind: JoinKind::Miter,
+            first_edge_end: EdgeCorners {
+                left: p[0],
+                right: p[1],
+            },
+            second_edge_start: EdgeCorners {
+                left: p[2],
+                right: p[3],
+            },
+        };
+
+        Self::new(join(start), join(end))
+    }
+
+    /// Verification hook: the (right, left) edges rasterised by `intersection`.
+    pub fn verif_edges(&self) -> (Line, Line) {
+        self.edges()
+    }
+}
